@@ -88,10 +88,14 @@ def encItem : Item String → Json
   | .rep lo hi r => .arr [.str "rep", jnat lo, jnat hi, encRe r]
   | .other r => .arr [.str "other", encRe r]
 
-def decV (j : Json) : Except String SV.Model.C01Regex.Variant :=
+def decV1 (j : Json) : SV.Model.C01Regex.Variant :=
   match j with
-  | .str "repaired" => pure .repaired
-  | _ => pure .asFound
+  | .str "repaired" => .repaired
+  | _ => .asFound
+
+/-- {"zeroMax": "asFound"|"repaired", "atom": …} -/
+def decV (j : Json) : Except String RxV :=
+  pure { zeroMax := decV1 (j.getD "zeroMax" .null), atom := decV1 (j.getD "atom" .null) }
 
 end Rx
 
